@@ -161,11 +161,11 @@ func genSetCase(s core.Source) setCase {
 }
 
 func strOfCode(code int) string {
-	// base-3 digits as letters: "", "a", "b", "c", "aa", ... so that proper prefixes occur
+	// base-3 digits as letters: "", "a", "é", "ü", "aa", ... so that proper prefixes occur
 	s := ""
 	for code > 0 {
 		code--
-		s = string(rune('a'+code%3)) + s
+		s = string([]rune{'a', 'é', 'ü'}[code%3]) + s // two of the three letters are two bytes long and share their first byte
 		code /= 3
 	}
 	return s
@@ -727,6 +727,7 @@ func execSetPerm(c setPermCase, s core.Source) core.Result {
 func TestC02(t *testing.T) {
 	r := core.Begin(t, "C02")
 	defer r.End()
+	core.DFS(r, core.Check[largeCase]{Name: "large-sizes", Gen: genLarge([]string{"Set"}), Exec: execLarge("C02"), NoJournal: true}, 0)
 	core.Rapid(r, core.Check[setCase]{Name: "history", Gen: genSetCase, Exec: execSetCase}, r.N(3000, 30000))
 	core.DFS(r, core.Check[setPermCase]{Name: "insertion-orders", Gen: genSetPerm, Exec: execSetPerm, NoJournal: true}, 0)
 }
